@@ -29,6 +29,13 @@ Proof.
   induction 1 as [|x y r b bs Hb _ IH]; intros Hty; [cbn; lia|]. inversion Hty; subst.
   cbn [length]. rewrite app_length. pose proof (xenc_req_length e 0 x None y b H1 Hb). specialize (IH H2). lia.
 Qed.
+Lemma xentries_length e kt vt kvs body : xentries e kt vt kvs body ->
+  Forall (fun p => has_type e kt (fst p) /\ has_type e vt (snd p)) kvs -> (2 * length kvs <= length body)%nat.
+Proof.
+  induction 1 as [|kt vt ky y r bk bv bs Hbk Hbv _ IH]; intros Hty; [cbn; lia|]. inversion Hty as [|? ? [Hk Hy] Hr]; subst.
+  cbn [fst snd] in *. cbn [length]. rewrite !app_length.
+  pose proof (xenc_req_length e 0 kt None ky bk Hk Hbk). pose proof (xenc_req_length e 1 vt None y bv Hy Hbv). specialize (IH Hr). lia.
+Qed.
 
 Lemma follows_xfields e : forall fds vs Js bs, xfields e fds vs Js bs -> forall lo t tail,
   t <= lo -> ascending lo fds -> junks_ok (Some lo) fds Js ->
@@ -247,6 +254,7 @@ Proof.
   - rewrite <- !app_assoc in *. rewrite seek_first by sf.
     change (tLIST =? tLIST) with true. cbv iota.
     rewrite read_count_len by (rewrite <- Hll in Hlen; lia).
+    replace ((Z.of_nat (length xs) <? 0)%Z || (Z.of_nat (length xs) <? Z.of_nat (length xs))%Z) with false by lia.
     pose proof (HA x (length xs) [] l xs body rest) as H1. cbn [length app] in H1. rewrite H1; try assumption; try reflexivity.
     unfold fuel_ok. rewrite !app_length in *. lia.
 Qed.
@@ -270,6 +278,9 @@ Proof.
   - rewrite <- !app_assoc in *. rewrite seek_first by sf.
     change (tMAP =? tMAP) with true. cbv iota.
     rewrite read_count_len by assumption.
+    pose proof (xentries_length e kt vt kvs body Hxm Hty) as Hel.
+    replace ((Z.of_nat (length kvs) <? 0)%Z || (Z.of_nat (length (body ++ rest)) / 2 <? Z.of_nat (length kvs))%Z)
+      with false by (rewrite app_length; lia).
     rewrite HE; try assumption; [reflexivity|].
     unfold fuel_ok. rewrite !app_length in *. lia.
 Qed.
@@ -288,7 +299,7 @@ Proof.
   subst bs. rewrite <- !app_assoc in *. rewrite seek_first by sf.
   change (tSB =? tSB) with true. cbv iota.
   pose proof (need_list_ge vs).
-  destruct f as [|f0]; [lia|]. destruct (struct_priors e f0 sid prior Hp) as (ps & -> & Hps).
+  destruct f as [|f0]; [lia|]. destruct (struct_priors e k f0 sid prior Hwf ltac:(lia)) as (ps & -> & Hps).
   rewrite (HF (fields_of e sid) vs ps Js None body (ser_fields Jl ++ head tSE 0 ++ rest)); try assumption.
   - rewrite (trail_skip (fields_of e sid)); [reflexivity|assumption|]. rewrite !app_length in *. lia.
   - now apply members_ok.
@@ -333,16 +344,16 @@ End Nested.
 (* unknown fields at every struct level: the decoded value is that of the clean encoding, the cursor stops in front
    of the trailing unknown fields *)
 Theorem decode_into_nested e k sid vs prior Js body tail :
-  wf_schema k e -> has_type e (TStruct sid) (VStruct vs) -> zlike e (TStruct sid) prior ->
+  wf_schema k e -> has_type e (TStruct sid) (VStruct vs) ->
   xfields e (fields_of e sid) vs Js body -> junks_ok None (fields_of e sid) Js ->
   (forall fd, In fd (fields_of e sid) -> follows (ftag fd) tail) ->
   (need_list vs + k + 3 <= 2 * length (body ++ tail) + 64)%nat ->
   decode_into e sid prior (body ++ tail) = DOk (norm_struct e sid (VStruct vs)) tail.
 Proof.
-  intros Hwf Hty Hp Hxf HJ Htail Hfuel. unfold decode_into, norm_struct. rewrite norm_str.
+  intros Hwf Hty Hxf HJ Htail Hfuel. unfold decode_into, norm_struct. rewrite norm_str.
   set (bs := body ++ tail) in *.
   replace (4 * length bs + 64)%nat with (S (4 * length bs + 63)) by lia.
-  destruct (struct_priors1 e (4 * length bs + 63) sid prior Hp) as (ps & -> & Hps).
+  destruct (struct_priors1 e k (4 * length bs + 63) sid prior Hwf ltac:(lia)) as (ps & -> & Hps).
   destruct (rtx_all e k Hwf (S (4 * length bs + 63))) as (_ & _ & _ & _ & HF).
   inversion Hty as [| | | | |? ? Hvs]; subst; [discriminate|].
   assert (H1 : dec_fields (S (4 * length bs + 63)) e (fields_of e sid) ps bs = DOk (norm_fields e vs (fields_of e sid)) tail).
@@ -435,7 +446,6 @@ Theorem extras_nested e k n sid vs Js body Jl :
 Proof.
   intros Hwf Hk Hfin Hn Hty Hxf HJ HJl. split; [|now apply (roundtrip_struct_static e k n)].
   unfold decode. apply (decode_into_nested e k sid vs _ Js); try assumption.
-  - now apply (zero_struct_zlike e k).
   - intros fd Hin. now apply (follows_trailing (fields_of e sid)).
   - destruct n as [|n']; [discriminate|]. cbn [tfin tneed] in Hfin, Hn. rewrite forallb_forall in Hfin.
     inversion Hty as [| | | | |? ? Hvs]; subst; [discriminate|].
